@@ -14,9 +14,10 @@ open ZV ZV.Proto ZV.Sync
 theorem insertChain_shape_in_code :
     Gen.InsertChainWindow = 30 ∧ Gen.InsertChainWindowOp = ">" ∧ Gen.InsertChainLongerOp = "<=" ∧
     Gen.InsertChainLoopReturnIndex = ["index + start", "index + start", "index + start", "index + start"] ∧
-    Gen.InsertChainIfConds = ["err != nil", "our == nil", "our.Hash != momentums[start].Momentum.Hash",
+    Gen.InsertChainIfConds = ["len(momentums) == 0", "err != nil", "our == nil",
+      "our.Hash != momentums[start].Momentum.Hash",
       "start == len(momentums)", "err != nil", "head.Previous() != ourFrontier.Identifier()", "err != nil",
-      "target.Identifier() != head.Previous()", "ourFrontier.Height-target.Height > 30",
+      "target == nil", "target.Identifier() != head.Previous()", "ourFrontier.Height-target.Height > 30",
       "tail.Height <= ourFrontier.Height", "err != nil", "block.BlockType == nom.BlockTypeContractSend",
       "patch != nil", "err != nil", "err != nil", "err != nil", "err != nil"] ∧
     Gen.InsertChainRollbackBeforeApplyLoop = true := by decide
